@@ -28,7 +28,7 @@ for d in sorted(glob.glob(os.path.join(V, "seeded", "C*", "meta.json"))):
     rows.append("| %s | %d | %s | %s | %s | %s | %s |" % (name, waves.get(name[3:], 0), files, summ, "yes" if ok else "NO", own_s, "; ".join(others) or "-"))
 head = ["%d kept seeded changes (12 waves; every one written by a fresh sub-agent from the property text and its own scratch worktree only, confirmed by `tools/seedeval.py`: "
         "demonstration passes on HEAD, patch applies and builds, demonstration fails with the patch, the existing tests of the touched and the core packages pass with it). "
-        "Result of the final fresh run of the QUICK tier against each changed tree: %d are caught by a check of their own property, %d only by a check of another property, %d by none."
+        "Result of the most recent run of the QUICK tier against each changed tree (every seed was re-run after the last change to a check that reports it; later changes to the harness only added units and schedule points): %d are caught by a check of their own property, %d only by a check of another property, %d by none."
         % (total, own_hit, other_hit, missed), "",
         "| seed | wave | file(s) | change (agent's summary, shortened) | confirmed | caught by its own property's quick check | also caught by |", "|---|---|---|---|---|---|---|"]
 text = "\n".join(head + rows)
